@@ -3,7 +3,9 @@ Fake UDP socket and virtual clock for driving the real vinegar.tftp.server._Tftp
 without source hooks: `socket` and `time` in the module's namespace are replaced in this process.
 
 Time unit: ticks of 1/1024 s (exact in binary floating point, so the code's float arithmetic on
-deadlines is exact).  Rule of the fake socket (mirrored by the Coq transfer machine): the head event
+deadlines is exact).  The clock moves only inside recvfrom: to the arrival time of a delivered
+datagram plus `proc` ticks (the time the server needs to take a datagram off the socket; 0 in most
+cases), or by the socket time-out.  Rule of the fake socket (mirrored by the Coq transfer machine): the head event
 of the script is delivered iff its time stamp is before now+timeout, otherwise the clock advances by
 the socket timeout and socket.timeout is raised (the event stays queued).
 """
@@ -60,11 +62,13 @@ class _Log(logging.Handler):
 
 
 class FakeSock:
-    def __init__(self, script, clock, log):
+    def __init__(self, script, clock, log, proc=0):
         self.script = script
         self.clock = clock
         self.log = log
         self.to = None
+        self.proc = proc
+        self.timeout_class = real_socket.timeout
 
     def __enter__(self):
         return self
@@ -90,16 +94,17 @@ class FakeSock:
             t, addr, data = self.script[0]
             if t / TICK < self.clock[0] + self.to:
                 self.script.pop(0)
-                self.clock[0] = max(self.clock[0], t / TICK)
+                # taking the datagram off the socket costs `proc` ticks of server time
+                self.clock[0] = max(self.clock[0], t / TICK) + self.proc / TICK
                 self.log.append(("recv", t, addr, bytes(data)))
                 return bytes(data)[:n], addr
         self.clock[0] += self.to
         self.log.append(("timeout", int(round(self.clock[0] * TICK))))
-        raise real_socket.timeout()
+        raise self.timeout_class("timed out")
 
 
 def run_transfer(script, handler, options, mode="octet", default_timeout=2, max_timeout=30,
-                 max_retries=1, max_block_size=65464, wrap=0, filename="f", context=None, shared_log=None):
+                 max_retries=1, max_block_size=65464, wrap=0, filename="f", context=None, shared_log=None, proc=0):
     """
     Run one real _TftpReadRequest to completion under the fake socket.
     script: list of (t_ticks, addr, datagram).  handler(filename, client, server, context) -> file object.
@@ -109,7 +114,22 @@ def run_transfer(script, handler, options, mode="octet", default_timeout=2, max_
     clock = [0.0]
     log = shared_log if shared_log is not None else []
     shim = types.SimpleNamespace(**{k: getattr(real_socket, k) for k in dir(real_socket) if not k.startswith("__")})
-    shim.socket = lambda **k: FakeSock(list(script), clock, log)
+
+    class LoggedTimeout(real_socket.timeout):
+        """socket.timeout as the server module sees it: when the server raises it itself (no time left in a
+        try: _set_socket_timeout) the trace gets its "timeout" record here; the fake socket passes a message
+        and has already written the record"""
+        def __init__(self, *a):
+            super().__init__(*a)
+            if not a:
+                log.append(("timeout", int(round(clock[0] * TICK))))
+
+    def mk_sock(**k):
+        fs = FakeSock(list(script), clock, log, proc)
+        fs.timeout_class = LoggedTimeout
+        return fs
+    shim.timeout = LoggedTimeout
+    shim.socket = mk_sock
     old = (S.socket, S.time)
     S.socket = shim
     S.time = types.SimpleNamespace(monotonic=lambda: clock[0])
